@@ -11,6 +11,8 @@ package main
 import (
 	"fmt"
 	"math/rand"
+	"sort"
+	"strings"
 	"time"
 )
 
@@ -102,7 +104,189 @@ func (g *wgen) reload() {
 	g.dirty = false
 }
 
+// ---- boundary weights --------------------------------------------------------------------------------------
+//
+// Weights are uint64 in the Go code and the weight delta of an update is an int64: histories whose weights sit at the
+// boundaries of these types (total always below 2^64 — the no-overflow side condition of C09, outside of which nothing is
+// claimed). The Lean model computes over unbounded naturals, so it says what the answers are.
+
+type bigEnt struct {
+	val []byte
+	w   uint64
+}
+
+type bigGen struct {
+	r      *rand.Rand
+	pool   []string
+	live   map[string]bigEnt
+	commit map[string]bigEnt
+	ops    []string
+	dirty  bool
+	serial int
+}
+
+func (g *bigGen) emit(f string, a ...interface{}) { g.ops = append(g.ops, fmt.Sprintf(f, a...)) }
+
+func (g *bigGen) total() uint64 {
+	var t uint64
+	for _, e := range g.live {
+		t += e.w
+	}
+	return t
+}
+
+// pickWeight draws from the boundary set; `rest` fills the total up to 2^64-1. The result keeps the total below 2^64.
+func (g *bigGen) pickWeight(others uint64) uint64 {
+	room := ^uint64(0) - others // the largest weight that keeps the total at most 2^64-1
+	cands := []uint64{1, 2, 1 << 31, 1 << 32, 1 << 62, 1<<63 - 1, 1 << 63, 1<<63 + 1, room, room - 1, room / 2, 3, 105}
+	for try := 0; try < 8; try++ {
+		w := cands[g.r.Intn(len(cands))]
+		if w >= 1 && w <= room {
+			return w
+		}
+	}
+	if room == 0 {
+		return 0
+	}
+	return 1
+}
+
+func (g *bigGen) upd(idx int) {
+	key := g.pool[idx]
+	var others uint64
+	for k, e := range g.live {
+		if k != key {
+			others += e.w
+		}
+	}
+	w := g.pickWeight(others)
+	if w == 0 {
+		return
+	}
+	if old, ok := g.live[key]; ok && g.r.Intn(3) == 0 {
+		// re-weight across 2^63: up if the key is below, down if above
+		if room := ^uint64(0) - others; old.w < 1<<63 && room >= 1<<63 {
+			w = 1 << 63
+			if room > 1<<63 && g.r.Intn(2) == 0 {
+				w++
+			}
+		} else if old.w >= 1<<63 {
+			w = []uint64{1, 1<<63 - 1, 1 << 62}[g.r.Intn(3)]
+		}
+	}
+	g.serial++
+	val := []byte{byte(g.serial), byte(g.serial >> 8), byte(idx), 0xbb} // a new value every time: a same-value rewrite keeps the old weight
+	g.emit("upd %x %x %d", key, val, w)
+	g.live[key] = bigEnt{val, w}
+	g.dirty = true
+}
+
+// boundary blocks of the generator's view of the content: first / last block of every interval, and total + 1
+func (g *bigGen) ownersAt() {
+	keys := make([]string, 0, len(g.live))
+	for k := range g.live {
+		keys = append(keys, k)
+	}
+	sort.Strings(keys)
+	var bs []string
+	var cum uint64
+	for _, k := range keys {
+		w := g.live[k].w
+		bs = append(bs, fmt.Sprintf("%d", cum+1))
+		if w > 1 {
+			bs = append(bs, fmt.Sprintf("%d", cum+w))
+			if w > 2 {
+				bs = append(bs, fmt.Sprintf("%d", cum+1+uint64(g.r.Int63())%(w-1)))
+			}
+		}
+		cum += w
+	}
+	if cum < ^uint64(0) {
+		bs = append(bs, fmt.Sprintf("%d", cum+1)) // beyond the total: range
+	}
+	if len(bs) == 0 {
+		bs = []string{"1"}
+	}
+	g.emit("ownersat %s", strings.Join(bs, ","))
+}
+
+func (g *bigGen) doCommit() {
+	g.emit("commit %d", g.r.Intn(8)-1)
+	g.commit = map[string]bigEnt{}
+	for k, e := range g.live {
+		g.commit[k] = e
+	}
+	g.dirty = false
+}
+
+func genC09Big(r *rand.Rand, tier string, idx int) []string {
+	g := &bigGen{r: r, pool: wkeyPool(r, 2+r.Intn(6)), live: map[string]bigEnt{}, commit: map[string]bigEnt{}}
+	// a few small entries first, so that the boundary weights arrive below existing branches
+	for k := 0; k < 1+r.Intn(3); k++ {
+		i := r.Intn(len(g.pool))
+		g.serial++
+		val := []byte{byte(g.serial), 0, byte(i), 0xaa}
+		w := uint64(1 + r.Intn(200))
+		if _, ok := g.live[g.pool[i]]; !ok {
+			g.emit("upd %x %x %d", g.pool[i], val, w)
+			g.live[g.pool[i]] = bigEnt{val, w}
+			g.dirty = true
+		}
+	}
+	n := 4 + r.Intn(14)
+	for k := 0; k < n; k++ {
+		switch x := r.Intn(100); {
+		case x < 50:
+			g.upd(r.Intn(len(g.pool)))
+			if r.Intn(3) == 0 {
+				g.emit("weight")
+			}
+		case x < 62:
+			key := g.pool[r.Intn(len(g.pool))]
+			if r.Intn(2) == 0 {
+				g.emit("updel %x", key)
+			} else {
+				g.emit("del %x", key)
+			}
+			if _, ok := g.live[key]; ok {
+				delete(g.live, key)
+				g.dirty = true
+			}
+		case x < 76:
+			g.doCommit()
+			if r.Intn(3) == 0 {
+				g.emit("gc")
+			}
+			g.ownersAt()
+		case x < 84:
+			if g.dirty {
+				g.doCommit()
+			}
+			g.emit("reload")
+			g.live = map[string]bigEnt{}
+			for k, e := range g.commit {
+				g.live[k] = e
+			}
+		case x < 92:
+			g.ownersAt()
+		default:
+			g.emit("root")
+		}
+	}
+	g.emit("weight")
+	g.ownersAt()
+	g.emit("root")
+	if r.Intn(2) == 0 {
+		g.doCommit()
+		g.ownersAt()
+	}
+	return g.ops
+}
+
 func genC09(r *rand.Rand, tier string, idx int) []string {
+	if idx%4 == 3 {
+		return genC09Big(r, tier, idx)
+	}
 	nkeys := 2 + r.Intn(8)
 	if tier == "thorough" && idx%7 == 0 {
 		nkeys = 8 + r.Intn(12)
@@ -170,7 +354,7 @@ func genC09(r *rand.Rand, tier string, idx int) []string {
 func init() {
 	register(&Suite{
 		Name:        "c09",
-		Rule:        "histories of 4..25 (thorough 4..53) ops: update / overwrite / same-value rewrite / delete (both entry points) / delete+re-add over 2..9 (thorough up to 19) 32-byte keys sharing prefixes of every length, weights 1..4 determined by the value, interleaved with commit at collapse levels -1..6, GC, reload from the committed (root, weight), weight, root, owner of random and of every block; non-trivial = at least 2 successful mutations and one commit",
+		Rule:        "histories of 4..25 (thorough 4..53) ops: update / overwrite / same-value rewrite / delete (both entry points) / delete+re-add over 2..9 (thorough up to 19) 32-byte keys sharing prefixes of every length, weights 1..4 determined by the value (every fourth case: weights from the boundary set {1, 2, 3, 105, 2^31, 2^32, 2^62, 2^63-1, 2^63, 2^63+1, 2^64-1-others and neighbours} with the total below 2^64, re-weighting across 2^63 in both directions, owners checked at the first / last / an inner block of every interval and beyond the total), interleaved with commit at collapse levels -1..6, GC, reload from the committed (root, weight), weight, root, owner of random and of every block; non-trivial = at least 2 successful mutations and one commit",
 		Gen:         genC09,
 		Run:         runWmpt,
 		CaseTimeout: 3 * time.Minute, // a stalled machine must not look like a hang; a real hang still fails the case
